@@ -364,8 +364,11 @@ def _decrypt_hmac(key: bytes, data: bytes, digest: str) -> bytes:
 
     decrypted = cipher.decrypt(encrypted)
     if decrypted[-1] <= 16:
-        # PKCS#7 padding
-        decrypted = decrypted[: -decrypted[-1]]
+        # PKCS#7 padding, the padding bytes are not covered by the HMAC so validate them
+        padding = decrypted[-1]
+        if padding == 0 or decrypted[-padding:] != bytes([padding]) * padding:
+            raise ValueError("Invalid PKCS#7 padding, wrong key?")
+        decrypted = decrypted[:-padding]
 
     # We don't do any secret crypto so we don't care about the warning in the docs about timing attacks
     # Truncated variants (e.g. HMAC-SHA-1-128) store only the first ``digest_size`` bytes of the digest
